@@ -22,7 +22,12 @@ def main():
     from maltoolbox.attackgraph import AttackGraph
     from maltoolbox.attackgraph.analyzers.apriori import calculate_viability_and_necessity
     from maltoolbox.wrappers import create_attack_graph
+    import signal
+    def _alarm(signum, frame):
+        raise TimeoutError('no result within 20 s')
+    signal.signal(signal.SIGALRM, _alarm)
     for lang_file, model_file in batch:
+        signal.alarm(20)
         try:
             if route == 'wrapper':
                 g = create_attack_graph(lang_file, model_file)
@@ -36,6 +41,8 @@ def main():
             print(json.dumps(['ok', canon(g)], default=str))
         except BaseException as e:
             print(json.dumps(['error', type(e).__name__]))
+        finally:
+            signal.alarm(0)
         sys.stdout.flush()
 
 
